@@ -4,6 +4,7 @@ import (
 	"bytes"
 	"encoding/json"
 	"fmt"
+	"strings"
 )
 
 // mergeAndMarshalClaims merges registered and the custom
@@ -28,9 +29,11 @@ func mergeAndMarshalClaims(registered any, extraClaims map[string]any) ([]byte, 
 		// Merge JSON data into custom claims.
 		// The full-read action by the decoder resets the buffer
 		// to zero len, while retaining underlaying cap.
-		if err := json.NewDecoder(buf).Decode(&merged); err != nil {
+		registeredJSON := make(map[string]any)
+		if err := json.NewDecoder(buf).Decode(&registeredJSON); err != nil {
 			return nil, fmt.Errorf("oidc registered claims: %w", err)
 		}
+		mergeRegistered(merged, registeredJSON)
 
 		// Marshal the final result.
 		if err := json.NewEncoder(buf).Encode(merged); err != nil {
@@ -39,6 +42,25 @@ func mergeAndMarshalClaims(registered any, extraClaims map[string]any) ([]byte, 
 	}
 
 	return buf.Bytes(), nil
+}
+
+// mergeRegistered writes the registered claims into the custom claims map.
+// encoding/json matches object keys to struct fields case-insensitively
+// (including the Unicode folds of 's' and 'k'), so a custom claim named
+// like a registered claim in another case would replace the registered
+// value when the object is decoded again. Such custom claims are dropped.
+func mergeRegistered(custom, registered map[string]any) {
+	for k := range custom {
+		for r := range registered {
+			if k != r && strings.EqualFold(k, r) {
+				delete(custom, k)
+				break
+			}
+		}
+	}
+	for r, v := range registered {
+		custom[r] = v
+	}
 }
 
 // unmarshalJSONMulti unmarshals the same JSON data into multiple destinations.
